@@ -25,7 +25,7 @@ def main():
     seed = int(os.environ.get('VERIF_SEED') or 1)
     prop = a.prop
     t0 = time.time()
-    mod = importlib.import_module('props.' + prop)
+    mod = merge_extensions(importlib.import_module('props.' + prop))
     ctx = Ctx(prop, tier, seed)
     if a.replay:
         return replay(ctx, mod, a.replay)
@@ -222,6 +222,87 @@ TRUSTED = [
     'correspondence harness (harness/*.c), the line protocol and the Lean driver\'s parser/printer',
     'gcc, the sanitizers, cmake/ninja used to build /repo\'s working tree for the harness',
 ]
+
+
+class Merged:
+    """A property module together with the extension modules it lists under EXTENSIONS (tools/EXT_BRIEF.md):
+    list-valued attributes are concatenated (parent first), pre_build / ties / search run for every part, and a
+    mismatch is classified by the part whose tie produced it.  Everything an extension reports is reported under the
+    parent's property id."""
+    LISTS = ('LEAN_MODULES', 'GEN', 'SOURCES', 'REQUIRED_THEOREMS', 'UNPROVED', 'NOT_COVERED', 'ASSUMPTIONS', 'TRUSTED')
+
+    def __init__(self, parent, exts):
+        self.parts = [parent] + exts
+        self.parent = parent
+        for a in self.LISTS:
+            out = []
+            for m in self.parts:
+                for x in getattr(m, a, []):
+                    if x not in out:
+                        out.append(x)
+            setattr(self, a, out)
+        self.RULE = ' || '.join(x for x in [getattr(parent, 'RULE', '')] +
+                                ['[%s] %s' % (m.__name__.split('.')[-1], getattr(m, 'RULE', '')) for m in exts] if x)
+        for a in ('LEVEL_TEXT', 'LEVEL_NOTE', 'TECHNIQUE'):
+            if hasattr(parent, a):
+                setattr(self, a, getattr(parent, a))
+        if any(hasattr(m, 'pre_build') for m in self.parts):
+            self.pre_build = self._pre_build
+        if any(hasattr(m, 'ties') for m in self.parts):
+            self.ties = self._ties
+        if any(hasattr(m, 'search') for m in self.parts):
+            self.search = self._search
+        self.classify = self._classify
+        if hasattr(parent, 'replay'):
+            self.replay = parent.replay
+
+    def _pre_build(self, ctx):
+        info = {}
+        for m in self.parts:
+            if hasattr(m, 'pre_build'):
+                info.update(m.pre_build(ctx) or {})
+        return info
+
+    def _ties(self, ctx):
+        out = []
+        for m in self.parts:
+            if hasattr(m, 'ties'):
+                for tr in m.ties(ctx):
+                    tr._owner = m
+                    out.append(tr)
+        return out
+
+    def _classify(self, ctx, tr, mm):
+        m = getattr(tr, '_owner', self.parent)
+        return m.classify(ctx, tr, mm) if hasattr(m, 'classify') else None
+
+    def _search(self, ctx):
+        res = None
+        for m in self.parts:
+            if not hasattr(m, 'search'):
+                continue
+            r = m.search(ctx) or {}
+            if res is None:
+                res = dict(r)
+                res['witnesses'] = list(r.get('witnesses', []))
+                res['samples'] = list(r.get('samples', []))
+                continue
+            tag = m.__name__.split('.')[-1]
+            res['cases'] = int(res.get('cases', 0)) + int(r.get('cases', 0))
+            res['distinct'] = int(res.get('distinct', 0)) + int(r.get('distinct', 0))
+            res['witnesses'].extend(r.get('witnesses', []))
+            res['samples'].extend(r.get('samples', [])[:2])
+            for k, v in r.items():
+                if k not in ('cases', 'distinct', 'witnesses', 'samples'):
+                    res['%s.%s' % (tag, k)] = v
+        return res
+
+
+def merge_extensions(mod):
+    names = getattr(mod, 'EXTENSIONS', [])
+    if not names:
+        return mod
+    return Merged(mod, [importlib.import_module('props.' + n) for n in names])
 
 
 class Ctx:
